@@ -108,10 +108,49 @@ def rle_search(case):
                       compiled_call=compiled, label="RunLengthEncoding._decode")
 
 
+def smallest_search(case):
+    """guided search for _to_smallest_integer_type (plain Python): arrays of length 1..3 over the boundary
+    values of every integer width, in the input dtype of the case, through the real function"""
+    import itertools
+    import os
+    import numpy as np
+    from replayers.common import REPO_SRC
+    # the function as it stands in the tree the VCs came from (executed on the real NumPy; it uses nothing else)
+    import ast
+    path = os.path.join(REPO_SRC, "structure/io/pdbx/compress.py")
+    fn = [x for x in ast.parse(open(path).read()).body if isinstance(x, ast.FunctionDef) and x.name == "_to_smallest_integer_type"]
+    ns = {"np": np}
+    exec(compile(ast.Module(fn, []), path, "exec"), ns)
+    _to_smallest_integer_type = ns["_to_smallest_integer_type"]
+    src = case.split("input=")[1].rstrip("]")
+    info = np.iinfo(src)
+    pool = sorted({v for b in (7, 8, 15, 16, 31, 32, 63, 64) for v in (2 ** b - 1, 2 ** b, 2 ** b + 1, -2 ** b - 1, -2 ** b, -2 ** b + 1)} | {0, 1, -1})
+    pool = [v for v in pool if info.min <= v <= info.max]
+    tried = 0
+    for n in (1, 2, 3):
+        for combo in itertools.product(pool, repeat=n):
+            if n == 3 and (combo[0] > combo[1] or tried > 60000):
+                continue
+            tried += 1
+            arr = np.array(combo, dtype=src)
+            try:
+                out = _to_smallest_integer_type(arr.copy())
+            except Exception as e:
+                return True, f"_to_smallest_integer_type(np.array({list(combo)}, dtype={src})) raised {type(e).__name__}: {e}"
+            if not np.issubdtype(out.dtype, np.integer) or out.shape != arr.shape or [int(x) for x in out] != [int(x) for x in arr]:
+                return True, (f"_to_smallest_integer_type(np.array({list(combo)}, dtype={src})) = {out.tolist()} ({out.dtype}): "
+                              f"the values are not kept")
+    return False, f"{tried} boundary-valued arrays of dtype {src} all kept their values"
+
+
 def main():
     rec = json.load(open(sys.argv[1]))
     try:
         case = rec["case"]
+        if "_to_smallest_integer_type" in case:
+            rep, detail = smallest_search(case)
+            finish(rep, detail)
+            return
         if "RunLengthEncoding" in case:
             rep, detail = rle_search(case)
             finish(rep, detail)
